@@ -137,6 +137,8 @@ def _init_worker():
     _MAXCNT[0] = 0
     _FAILS.clear()
     _MINI.clear()
+    _CONFIRM.clear()
+    _EXEC_LEFT[0] = MAX_DIFF_EXEC_PER_WORKER
 
 
 def _where(e):
@@ -191,32 +193,46 @@ def _globals():
 
 @contextlib.contextmanager
 def _quiet():
-    sys.stdout.flush()
-    sys.stderr.flush()
+    """Commands print; nothing of it may reach the check's own output.  Both the Python-level streams (xonsh may
+    close the ones it is handed) and the descriptors are pointed at /dev/null for the duration of one run."""
+    keep = (sys.stdout, sys.stderr, sys.__stdout__, sys.__stderr__)
+    for s in keep[:2]:
+        try:
+            s.flush()
+        except Exception:  # noqa: BLE001
+            pass
     so, se = os.dup(1), os.dup(2)
     os.dup2(_DEVNULL, 1)
     os.dup2(_DEVNULL, 2)
+    tmp_o, tmp_e = open(os.devnull, "w"), open(os.devnull, "w")
+    sys.stdout = sys.__stdout__ = tmp_o
+    sys.stderr = sys.__stderr__ = tmp_e
     try:
         yield
     finally:
-        try:
-            sys.stdout.flush()
-            sys.stderr.flush()
-        except Exception:  # noqa: BLE001
-            pass
+        sys.stdout, sys.stderr, sys.__stdout__, sys.__stderr__ = keep
+        for s in (tmp_o, tmp_e):
+            try:
+                s.close()
+            except Exception:  # noqa: BLE001
+                pass
         os.dup2(so, 1)
         os.dup2(se, 2)
         os.close(so)
         os.close(se)
 
 
-def execute(src, rcs):
+FLAGSETS = ((True, False), (False, True))  # ($XONSH_SUBPROC_RAISE_ERROR, $XONSH_SUBPROC_CMD_RAISE_ERROR); first = defaults
+
+
+def execute(src, rcs, flags=FLAGSETS[0]):
     """Run one program on the real implementation; -> JSON-able trace."""
     del LOG[:]
     RC.clear()
     RC.update(rcs)
     _XSH.lastcmd = _XSH.last = None
     _XSH.env["V"] = "vv"
+    _XSH.env["XONSH_SUBPROC_RAISE_ERROR"], _XSH.env["XONSH_SUBPROC_CMD_RAISE_ERROR"] = flags
     g = _globals()
     exc = None
     _CNT[0] = -10**9  # execution is not under the parse budget (the pair was parsed under it before)
@@ -261,13 +277,45 @@ def _dump(tree):
 
 _FAILS = {}
 _MINI = {}
+_CONFIRM = {}
+_EXEC_LEFT = [0]
+MAX_DIFF_EXEC_PER_WORKER = 400  # pairs with differing trees that one worker will decide by execution
 
 
-def rc_assignments(chain, full):
+def run_settings(chain, full):
+    """(return codes per command, flag setting) under which a pair is run: the two uniform assignments under the
+    default flags for a pair with equal trees; every assignment x both flag settings when the trees differ."""
     names = gen.chain_commands(chain)
     if not full:
-        return [dict.fromkeys(names, 0), dict.fromkeys(names, 1)] if len(names) > 1 or True else []
-    return [dict(zip(names, bits)) for bits in itertools.product((0, 1), repeat=len(names))]
+        return [(dict.fromkeys(names, 0), FLAGSETS[0]), (dict.fromkeys(names, 1), FLAGSETS[0])]
+    return [(dict(zip(names, bits)), fl) for fl in FLAGSETS for bits in itertools.product((0, 1), repeat=len(names))]
+
+
+def _strip_boolop_marks(tree):
+    """Repair transform for one precisely known difference: drop the `in_boolop=True` keyword the parser puts on
+    subprocess calls that are direct operands of and/or/&&/||."""
+    n = 0
+    for node in pyast.walk(tree):
+        if isinstance(node, pyast.Call) and node.keywords:
+            kept = [k for k in node.keywords if k.arg != "in_boolop"]
+            n += len(node.keywords) - len(kept)
+            node.keywords = kept
+    return n
+
+
+def compare_runs(chain, bare, expl, full):
+    """-> (number of executions, None | (rcs, flags, trace_bare, trace_explicit) of the first differing run, first trace)"""
+    n = 0
+    first = None
+    for rcs, fl in run_settings(chain, full):
+        tb_ = execute(bare, rcs, fl)
+        te_ = execute(expl, rcs, fl)
+        n += 2
+        if first is None:
+            first = te_
+        if tb_ != te_:
+            return n, (rcs, list(fl), tb_, te_), first
+    return n, None, first
 
 
 def check_pair(chain, pos, want_exec=False):
@@ -303,21 +351,46 @@ def check_pair(chain, pos, want_exec=False):
     if same and not (want_exec and runnable):
         res.update(status="agree-ast")
         return res
+    if not same and rb[0] == "tree" and re_[0] == "tree":
+        mb, me = _strip_boolop_marks(rb[1]), _strip_boolop_marks(re_[1])
+        if mb != me and _dump(rb[1]) == _dump(re_[1]):
+            # the ONLY difference: operands of the chain are (not) marked as chain operands.  Whether that is
+            # visible at run time is decided once per minimal form (confirm_boolop_mark), not per pair.
+            res.update(status="boolop-mark", detail={"in_boolop_marks_bare": mb, "in_boolop_marks_explicit": me})
+            return res
     if not runnable:
         res.update(status="ast-diff-bg", detail=_first_diff(db, de))
         return res
-    for rcs in rc_assignments(chain, full=not same):
-        tb_ = execute(bare, rcs)
-        te_ = execute(expl, rcs)
-        res["executed"] += 2
-        if tb_ != te_:
-            if same:
-                raise common.ToolError(f"identical trees ran differently (harness nondeterminism): {bare!r} {tb_} {te_}")
-            res.update(status="trace-diff", rcs=rcs, trace_bare=tb_, trace_explicit=te_)
-            return res
-        res.setdefault("trace0", te_)
+    if not same and _EXEC_LEFT[0] <= 0:
+        res.update(status="undecided")
+        return res
+    n, diff, first = compare_runs(chain, bare, expl, full=not same)
+    res["executed"] = n
+    if not same:
+        _EXEC_LEFT[0] -= 1
+    if diff is not None:
+        if same:
+            raise common.ToolError(f"identical trees ran differently (harness nondeterminism): {bare!r} {diff}")
+        res.update(status="trace-diff", rcs=diff[0], flags=diff[1], trace_bare=diff[2], trace_explicit=diff[3])
+        return res
+    res["trace0"] = first
     res.update(status="agree-ast" if same else "agree-trace")
     return res
+
+
+def confirm_boolop_mark(chain, pos):
+    """A pair whose trees differ only in the chain-operand marking: run it (all return codes x both flag settings)."""
+    k = common.jdump([chain, pos])
+    if k not in _CONFIRM:
+        if has_bg_or_unrunnable(chain):
+            _CONFIRM[k] = None
+        else:
+            _CONFIRM[k] = compare_runs(chain, gen.render(chain, pos, False), gen.render(chain, pos, True), full=True)[1]
+    return _CONFIRM[k]
+
+
+def has_bg_or_unrunnable(chain):
+    return gen.has_bg(chain)
 
 
 def _first_diff(a, b):
@@ -328,7 +401,7 @@ def _first_diff(a, b):
     return {"at": i, "bare": a[max(0, i - 60) : i + 120], "explicit": b[max(0, i - 60) : i + 120]}
 
 
-FAIL = ("bare-rejected", "explicit-rejected", "trace-diff", "ast-diff-bg", "internal", "hang")
+FAIL = ("bare-rejected", "explicit-rejected", "trace-diff", "boolop-mark", "ast-diff-bg", "internal", "hang")
 
 
 def _sig(res):
@@ -390,12 +463,19 @@ def _violation_for(chain, pos, res):
         "bare-rejected": "bare line rejected although its hand-wrapped form is accepted",
         "explicit-rejected": "bare line accepted although its hand-wrapped form is rejected",
         "trace-diff": "bare line runs differently from its hand-wrapped form",
+        "boolop-mark": "bare chain operand is not compiled as a chain operand (differs from its hand-wrapped form under $XONSH_SUBPROC_CMD_RAISE_ERROR)",
         "ast-diff-bg": "bare line with `&` compiles to a different program than its hand-wrapped form",
         "internal": "detection raised an internal exception",
         "hang": "detection did not terminate within the budget",
     }[s]
-    if s == "trace-diff":
-        obs, exp = {"rcs": res["rcs"], "bare": res["trace_bare"]}, {"explicit": res["trace_explicit"]}
+    if s == "boolop-mark":
+        d = confirm_boolop_mark(mchain, mpos)
+        if d is None:
+            return None  # same runs under every return-code assignment and flag setting: allowed
+        obs = {"trees": res["detail"], "minimal_form_run": {"rcs": d[0], "RAISE_ERROR,CMD_RAISE_ERROR": d[1], "bare": d[2]}}
+        exp = {"minimal_form_run": {"explicit": d[3]}}
+    elif s == "trace-diff":
+        obs, exp = {"rcs": res["rcs"], "RAISE_ERROR,CMD_RAISE_ERROR": res["flags"], "bare": res["trace_bare"]}, {"explicit": res["trace_explicit"]}
     elif s == "ast-diff-bg":
         obs, exp = res["detail"]["bare"], res["detail"]["explicit"]
     elif s == "bare-rejected":
@@ -443,7 +523,11 @@ def _do_chain(item):
         out["executed"] += res["executed"]
         out["maxparses"] = max(out["maxparses"], *res["parses"])
         if st in FAIL:
-            out["viols"].append(_violation_for(chain, pos, res))
+            v = _violation_for(chain, pos, res)
+            if v is None:
+                out["st"]["boolop-mark-benign"] = out["st"].get("boolop-mark-benign", 0) + 1
+            else:
+                out["viols"].append(v)
         elif res["executed"] and len(out["samples"]) < 1 and "trace0" in res:
             out["samples"].append({"bare": res["bare"], "explicit": res["explicit"], "trace(rc=0)": res["trace0"]["calls"]})
     return out
